@@ -31,6 +31,22 @@ func newEnvModel(i *interpreter) *envModel {
 
 // patchGlobals sets globals of zero-initialised packages that code reads.
 func (i *interpreter) patchGlobals(pkg *ssa.Package) {
+	if pkg.Pkg.Path() == "time" {
+		// the name tables Format / String read (package time's init is not executed)
+		set := func(name string, names []string) {
+			if g, ok := pkg.Members[name].(*ssa.Global); ok {
+				vs := make([]value, len(names))
+				for k, n := range names {
+					vs[k] = n
+				}
+				*i.shared[g] = vs
+			}
+		}
+		set("longDayNames", []string{"Sunday", "Monday", "Tuesday", "Wednesday", "Thursday", "Friday", "Saturday"})
+		set("shortDayNames", []string{"Sun", "Mon", "Tue", "Wed", "Thu", "Fri", "Sat"})
+		set("shortMonthNames", []string{"Jan", "Feb", "Mar", "Apr", "May", "Jun", "Jul", "Aug", "Sep", "Oct", "Nov", "Dec"})
+		set("longMonthNames", []string{"January", "February", "March", "April", "May", "June", "July", "August", "September", "October", "November", "December"})
+	}
 	if pkg.Pkg.Path() == "os" {
 		// os.ErrNotExist etc. alias the io/fs sentinels
 		fsp := i.prog.ImportedPackage("io/fs")
